@@ -267,6 +267,20 @@ PROPS = {
             dict(test="TestC13Prop", kind="rapid", checks={Q: 150, T: 5000}, shards=16),
         ],
     ),
+    "C01": dict(
+        pkg="c01", level="exploration",
+        technique="stateful property-based testing (rapid state machine) against a live transport over loopback TCP: 1..3 unpaired attacker connections (plaintext requests, forged pairing fragments, ciphertext under self-derived keys) interleaved with a verified reference controller and application-side changes; refusal / no-disclosure / no-change / no-event oracle after every attacker request",
+        level_text=("A started transport serves a bridge whose string values carry per-case canary tokens; one controller is paired in the database, the attacker is not. Rapid drives a state machine of attacker requests to every protected endpoint (plaintext; after forged or failed pair-setup / pair-verify fragments; sealed under the keys the attacker can derive from its own pair-verify start), "
+                    "legitimate reads, writes, subscriptions and reconnects, and application-side value changes. After every attacker request: the reply is a refusal (status >= 400 or closed connection) without canary, listing or value; every application value, callback counter and the entity files are unchanged; no EVENT ever arrives on an attacker connection. "
+                    "The legitimate controller's requests must be served with the model's values in the same history."),
+        level_note="Trusted: refctl; the canary/keyword disclosure scan. /identify is unprotected by specification and not treated as protected. Reuse of a closed verified connection's source port by a new connection is not generated. For sealed requests the harness waits 120 ms of silence to conclude that nothing was served (a miss, never an alarm, if the accessory answered later).",
+        rule=("rapid state machine, about 30 actions per history over 11 action kinds; protected requests drawn from 12 request shapes. Non-trivial: at least one attacker request to a protected endpoint issued while the legitimate controller is verified on another connection. Distinct by history."),
+        assumptions=["the attacker knows neither the setup code nor a paired long-term secret key"],
+        essential_classes=["/accessories/plaintext", "/characteristics:get/plaintext", "/characteristics:put/plaintext", "/characteristics:subscribe/plaintext", "/pairings:add/plaintext", "/pairings:remove/plaintext", "/resource/plaintext", "legit-served", "app-change", "pair-verify-forged-finish", "pair-setup-fragment"],
+        jobs=[
+            dict(test="TestC01Prop", kind="rapid", checks={Q: 12, T: 1500}, shards=16),
+        ],
+    ),
 }
 
 # reasons for properties not claimed yet (kept current while the framework is being built)
